@@ -178,6 +178,9 @@ impl Cfg {
             SDl::Ms(10_000),
             SDl::Ms(3 * 3600 * 1000),
             SDl::Ms(YEAR_MS),
+            // beyond the supported span: clamped by the server, still tracked, cancellable, de-duplicated
+            SDl::Beyond(2 * 366 * 24 * 3600),
+            SDl::Max,
         ];
         let k = 1 + r.below(4);
         c.deadlines = (0..k).map(|_| *r.pick(&all)).collect();
